@@ -195,6 +195,10 @@ func (round *round3) Start() *tss.Error {
 	// PRINT public key & private share
 	common.Logger.Debugf("%s public key: %x", round.PartyID(), eddsaPubKey)
 
+	// nothing more is awaited: let the party finish instead of staying in round 3 waiting for everybody
+	for j := range round.ok {
+		round.ok[j] = true
+	}
 	round.end <- round.save
 	return nil
 }
